@@ -47,7 +47,7 @@ C_SOURCES = ["libconfig.c", "scanctx.c", "scanner.c", "grammar.c",
 CXX_SOURCES = ["libconfigcpp.c++"]
 DEFS = ["-DHAVE_USELOCALE", "-DHAVE_NEWLOCALE", "-DHAVE_FREELOCALE"]
 
-WRAPPERS = ["libconfig_malloc", "libconfig_calloc", "libconfig_realloc"]
+WRAPPERS = ["libconfig_malloc", "libconfig_calloc", "libconfig_realloc", "libconfig_strdup"]
 WRAPPER_FILE = "util.c"
 FATAL = "libconfig_fatal_error"
 
